@@ -9,6 +9,8 @@ import (
 	"fmt"
 	"io"
 	"net"
+	"sort"
+	"strconv"
 	"strings"
 	"sync"
 	"sync/atomic"
@@ -32,37 +34,63 @@ type Req struct {
 	replied int32
 }
 
+// TableColumn is one row of system_schema.columns.
+type TableColumn struct {
+	Name     string
+	Type     string // CQL type name
+	Kind     string // partition_key | clustering | regular | static
+	Position int
+}
+
+// SetTable describes a table in the cluster's schema (creating the keyspace with SimpleStrategy/1 if it is unknown).
+func (c *Cluster) SetTable(ks, table string, cols []TableColumn) {
+	c.mu.Lock()
+	defer c.mu.Unlock()
+	if c.Tables == nil {
+		c.Tables = map[string]map[string][]TableColumn{}
+	}
+	if c.Tables[ks] == nil {
+		c.Tables[ks] = map[string][]TableColumn{}
+	}
+	c.Tables[ks][table] = cols
+	if _, ok := c.Keyspaces[ks]; !ok {
+		c.Keyspaces[ks] = map[string]string{"class": "org.apache.cassandra.locator.SimpleStrategy", "replication_factor": "1"}
+	}
+}
+
 type PeerRow struct {
-	Peer        net.IP
-	RPC         net.IP
-	HostID      []byte // 16 bytes; nil = null
-	DC, Rack    string
-	Tokens      []string
-	Version     string
-	SchemaVer   []byte
-	NullRPC     bool
-	NativePort  int
+	Peer       net.IP
+	RPC        net.IP
+	HostID     []byte // 16 bytes; nil = null
+	DC, Rack   string
+	Tokens     []string
+	Version    string
+	SchemaVer  []byte
+	NullRPC    bool
+	NativePort int
 }
 
 type Node struct {
-	Idx        int
-	HostID     [16]byte
-	IP         net.IP
-	PeerIP     net.IP // node-to-node (peer / broadcast) address if it differs from the client-facing one
-	Port       int
-	DC, Rack   string
-	Tokens     []string
-	Release    string
-	Supported  map[string][]string
-	AuthClass  string
-	AuthSteps  int // number of AUTH_CHALLENGE rounds before AUTH_SUCCESS
+	Idx       int
+	HostID    [16]byte
+	IP        net.IP
+	PeerIP    net.IP // node-to-node (peer / broadcast) address if it differs from the client-facing one
+	Port      int
+	DC, Rack  string
+	Tokens    []string
+	Release   string
+	Supported map[string][]string
+	AuthClass string
+	AuthSteps int // number of AUTH_CHALLENGE rounds before AUTH_SUCCESS
 	// SystemIntercept, if set, sees every QUERY before the node's own system-table logic; true = handled.
+	RefuseNext      int32 // the next that many dials are refused (atomic)
+	Refused         int64 // dials refused that way (atomic)
 	SystemIntercept func(sc *ServerConn, req *Req) bool
-	Handler    Handler
-	cluster    *Cluster
-	mu         sync.Mutex
-	down       bool
-	conns      []*ServerConn
+	Handler         Handler
+	cluster         *Cluster
+	mu              sync.Mutex
+	down            bool
+	conns           []*ServerConn
 	// DialDelay is slept before a dial returns
 	DialDelay time.Duration
 	// OnStartupStep, if set, may close the conn at a handshake step: called with the opcode received
@@ -77,6 +105,8 @@ type Cluster struct {
 	Partitioner string
 	SchemaVer   [16]byte
 	Keyspaces   map[string]map[string]string // name -> replication map (incl. "class")
+	// Tables: keyspace -> table -> columns, served from system_schema.tables / system_schema.columns
+	Tables map[string]map[string][]TableColumn
 	// PeersView overrides what system.peers returns when asked on node n
 	PeersView func(n *Node) []PeerRow
 	// LocalView overrides the system.local row of node n
@@ -89,9 +119,9 @@ type Cluster struct {
 	// ProtoMax: highest protocol version the cluster speaks (0 = any)
 	ProtoMax int
 
-	conns   []*ServerConn
-	reqSeq  int64
-	events  []string // log of noteworthy monitor events
+	conns  []*ServerConn
+	reqSeq int64
+	events []string // log of noteworthy monitor events
 	// Monitor findings
 	BadFrames   []string // requests the reference decoder rejected
 	StreamReuse []string // request on a stream whose previous response has not been written yet
@@ -138,13 +168,20 @@ func (c *Cluster) note(s string) {
 }
 
 func (c *Cluster) NodeByAddr(addr string) *Node {
-	host, _, err := net.SplitHostPort(addr)
+	host, portS, err := net.SplitHostPort(addr)
 	if err != nil {
 		host = addr
 	}
 	ip := net.ParseIP(host)
+	port, _ := strconv.Atoi(portS)
 	c.mu.Lock()
 	defer c.mu.Unlock()
+	// several nodes may share an address and differ in the port
+	for _, n := range c.Nodes {
+		if n.IP.Equal(ip) && n.Port == port {
+			return n
+		}
+	}
 	for _, n := range c.Nodes {
 		if n.IP.Equal(ip) {
 			return n
@@ -214,6 +251,11 @@ func (d Dialer) DialContext(ctx context.Context, network, addr string) (net.Conn
 	if down {
 		return nil, &net.OpError{Op: "dial", Net: "mem", Err: errors.New("connection refused")}
 	}
+	if atomic.LoadInt32(&n.RefuseNext) > 0 && atomic.AddInt32(&n.RefuseNext, -1) >= 0 {
+		// the node refuses a few connection attempts (its existing connections are untouched)
+		atomic.AddInt64(&n.Refused, 1)
+		return nil, &net.OpError{Op: "dial", Net: "mem", Err: errors.New("connection refused")}
+	}
 	f := memnet.NoFaults()
 	if c.FaultsFor != nil {
 		f = c.FaultsFor(n, k)
@@ -237,13 +279,13 @@ func (d Dialer) DialContext(ctx context.Context, network, addr string) (net.Conn
 }
 
 type ServerConn struct {
-	Node    *Node
-	C       *memnet.Conn // node side
-	Driver  *memnet.Conn // driver side (for inspection)
-	Index   int
-	Version int
+	Node        *Node
+	C           *memnet.Conn // node side
+	Driver      *memnet.Conn // driver side (for inspection)
+	Index       int
+	Version     int
 	Compression string
-	Keyspace string
+	Keyspace    string
 
 	mu          sync.Mutex
 	wmu         sync.Mutex
@@ -468,6 +510,9 @@ func (sc *ServerConn) handleFrame(h cqlref.Header, raw, body []byte) {
 	default:
 		if !sc.ready {
 			sc.bad(raw, "request before the handshake completed")
+		}
+		if n.schemaPrepared(sc, req) {
+			return
 		}
 		n.dispatch(sc, req)
 	}
@@ -712,28 +757,13 @@ func (n *Node) systemQuery(sc *ServerConn, req *Req) bool {
 		sc.Keyspace = ks
 		sc.Reply(req, cqlref.OpResult, nil, cqlref.BodySetKeyspace(ks))
 		return true
-	case strings.Contains(low, "from system_schema.keyspaces"):
-		// SELECT durable_writes, replication FROM system_schema.keyspaces WHERE keyspace_name = ?
+	case strings.Contains(low, "from system_schema.keyspaces") || strings.Contains(low, "from system_schema.tables") || strings.Contains(low, "from system_schema.columns"):
 		name := ""
 		if req.Params != nil && len(req.Params.Values) > 0 {
 			name = string(req.Params.Values[0].Bytes)
 		}
-		c.mu.Lock()
-		repl, ok := c.Keyspaces[name]
-		c.mu.Unlock()
-		cols := []cqlref.Column{{Keyspace: "system_schema", Table: "keyspaces", Name: "durable_writes", Type: T(cqlref.TBoolean)},
-			{Keyspace: "system_schema", Table: "keyspaces", Name: "replication", Type: &cqlref.Type{ID: cqlref.TMap, Key: T(cqlref.TText), Elem: T(cqlref.TText)}}}
-		var rows [][][]byte
-		if ok {
-			w := &cqlref.W{}
-			w.Int(int32(len(repl)))
-			for k, v := range repl {
-				w.Bytes([]byte(k))
-				w.Bytes([]byte(v))
-			}
-			rows = [][][]byte{{{1}, w.B}}
-		}
-		sc.ReplyRows(req, &cqlref.RowsSpec{Meta: cqlref.Metadata{Global: true, Columns: cols, ColCount: 2}, Rows: rows})
+		cols, rows := c.schemaResult(low, name)
+		sc.ReplyRows(req, &cqlref.RowsSpec{Meta: cqlref.Metadata{Global: true, Columns: cols, ColCount: len(cols)}, Rows: rows})
 		return true
 	case strings.Contains(low, "from system_schema.") || strings.Contains(low, "from system.schema_") || strings.Contains(low, "from system."):
 		// anything else about the schema: an empty result
@@ -878,4 +908,93 @@ func (sc *ServerConn) Control() bool {
 	sc.mu.Lock()
 	defer sc.mu.Unlock()
 	return sc.IsControl
+}
+
+// schemaResult answers the three schema queries the driver needs to describe a keyspace and its tables
+// (system_schema.keyspaces / tables / columns, Cassandra 3+ layout) for keyspace ks.
+func (c *Cluster) schemaResult(low, ks string) (cols []cqlref.Column, rows [][][]byte) {
+	T := func(id int) *cqlref.Type { return &cqlref.Type{ID: id} }
+	col := func(tb, nm string, t *cqlref.Type) cqlref.Column {
+		return cqlref.Column{Keyspace: "system_schema", Table: tb, Name: nm, Type: t}
+	}
+	c.mu.Lock()
+	defer c.mu.Unlock()
+	switch {
+	case strings.Contains(low, "from system_schema.keyspaces"):
+		cols = []cqlref.Column{col("keyspaces", "durable_writes", T(cqlref.TBoolean)),
+			col("keyspaces", "replication", &cqlref.Type{ID: cqlref.TMap, Key: T(cqlref.TText), Elem: T(cqlref.TText)})}
+		if repl, ok := c.Keyspaces[ks]; ok {
+			w := &cqlref.W{}
+			w.Int(int32(len(repl)))
+			for k, v := range repl {
+				w.Bytes([]byte(k))
+				w.Bytes([]byte(v))
+			}
+			rows = [][][]byte{{{1}, w.B}}
+		}
+	case strings.Contains(low, "from system_schema.tables"):
+		cols = []cqlref.Column{col("tables", "table_name", T(cqlref.TVarchar))}
+		for _, tn := range sortedTables(c.Tables[ks]) {
+			rows = append(rows, [][]byte{[]byte(tn)})
+		}
+	case strings.Contains(low, "from system_schema.columns"):
+		cols = []cqlref.Column{col("columns", "table_name", T(cqlref.TVarchar)), col("columns", "column_name", T(cqlref.TVarchar)), col("columns", "clustering_order", T(cqlref.TVarchar)),
+			col("columns", "type", T(cqlref.TVarchar)), col("columns", "kind", T(cqlref.TVarchar)), col("columns", "position", T(cqlref.TInt))}
+		for _, tn := range sortedTables(c.Tables[ks]) {
+			for _, tc := range c.Tables[ks][tn] {
+				var pos [4]byte
+				binary.BigEndian.PutUint32(pos[:], uint32(int32(tc.Position)))
+				rows = append(rows, [][]byte{[]byte(tn), []byte(tc.Name), []byte("none"), []byte(tc.Type), []byte(tc.Kind), pos[:]})
+			}
+		}
+	}
+	return cols, rows
+}
+
+func sortedTables(m map[string][]TableColumn) []string {
+	var out []string
+	for tn := range m {
+		out = append(out, tn)
+	}
+	sort.Strings(out)
+	return out
+}
+
+// schemaPrepared handles PREPARE / EXECUTE of the driver's own schema queries (the control connection prepares
+// them like any other SELECT). Returns true if the request was one of them.
+func (n *Node) schemaPrepared(sc *ServerConn, req *Req) bool {
+	switch req.Header.Op {
+	case cqlref.OpPrepare:
+		low := strings.ToLower(req.Statement)
+		if !strings.Contains(low, "from system_schema.") {
+			return false
+		}
+		cols, _ := n.cluster.schemaResult(low, "")
+		ps := &cqlref.PreparedSpec{ID: []byte("SYS:" + req.Statement), Result: cqlref.Metadata{Global: len(cols) > 0, Columns: cols, ColCount: len(cols)}}
+		if strings.Contains(req.Statement, "?") {
+			ps.Bind = cqlref.Metadata{Global: true, ColCount: 1, Columns: []cqlref.Column{{Keyspace: "system_schema", Table: "keyspaces", Name: "keyspace_name", Type: &cqlref.Type{ID: cqlref.TVarchar}}}}
+			if sc.Version >= 4 {
+				ps.Bind.PKIndexes = []int{0}
+			}
+		}
+		sc.Reply(req, cqlref.OpResult, nil, cqlref.BodyPrepared(sc.Version, ps))
+		return true
+	case cqlref.OpExecute:
+		if !strings.HasPrefix(string(req.PreparedID), "SYS:") {
+			return false
+		}
+		low := strings.ToLower(strings.TrimPrefix(string(req.PreparedID), "SYS:"))
+		name := ""
+		if req.Params != nil && len(req.Params.Values) > 0 {
+			name = string(req.Params.Values[0].Bytes)
+		}
+		cols, rows := n.cluster.schemaResult(low, name)
+		meta := cqlref.Metadata{Global: len(cols) > 0, Columns: cols, ColCount: len(cols)}
+		if req.Params != nil && req.Params.SkipMeta {
+			meta.NoMetadata, meta.Columns, meta.Global = true, nil, false
+		}
+		sc.ReplyRows(req, &cqlref.RowsSpec{Meta: meta, Rows: rows})
+		return true
+	}
+	return false
 }
